@@ -1092,7 +1092,10 @@ def stream_loop(ctx: Ctx) -> Stream:
 				it, tok = req_item(ls, exc)
 				ok_it, ok_tok = req_item(['b = 2'], None)
 				cases.append(({'kind': 'request-boundary'}, ['\t'.join(['loopreq', tok, ok_tok])], [run_script([it, ok_it])]))
+		_dl_loop_requests = _deadline(ctx, 'loop-requests', ctx.scale(30, 200))
 		for _ in range(ctx.scale(60, 400)):
+			if _dl_loop_requests.over():
+				continue
 			script, toks = [], []
 			for _i in range(rng.randint(1, 4)):
 				if rng.random() < 0.1:
@@ -1119,11 +1122,13 @@ def stream_loop(ctx: Ctx) -> Stream:
 			old_rl = tio.readline
 			tio.readline = fake_readline  # type: ignore[assignment]
 			try:
-				with contextlib.redirect_stdout(io.StringIO()):
+				with contextlib.redirect_stdout(io.StringIO()), pl.budget():
 					got = tio.tty('p')
 				return f'req {lines_tok(got)} {len(feed)}' if isinstance(got, list) and all(isinstance(x, str) for x in got) else f'unexpected {type(got).__name__}'
 			except _Exhausted:
 				return 'waiting'
+			except pl.WallCap:
+				return 'timeout'
 			except BaseException as e:  # noqa: BLE001
 				return f'raise {display(type(e))}'
 			finally:
@@ -1132,6 +1137,8 @@ def stream_loop(ctx: Ctx) -> Stream:
 		for keys in ([], [''], ['exit'], ['a', ''], ['a', 'exit', 'b', ''], ['', ''], ['a'], ['exit ', ''], [' ', ''], ['a', 'b', 'c', '', 'd'], ['x'] * 300 + [''], ['a', 'exit']):
 			cases.append(({'kind': 'tty-boundary'}, ['\t'.join(['tty', *[common.hx(k) for k in keys]])], [real_tty(keys)]))
 		for _ in range(ctx.scale(60, 400)):
+			if _dl_loop_requests.over():
+				continue
 			keys = [rng.choice(words) for _j in range(rng.randint(0, 6))]
 			cases.append(({'kind': 'tty-random'}, ['\t'.join(['tty', *[common.hx(k) for k in keys]])], [real_tty(keys)]))
 		# whole keyboard sessions: real tty() + real Interactive.run, the transpile outcome scripted per request text
@@ -1147,6 +1154,8 @@ def stream_loop(ctx: Ctx) -> Stream:
 
 		by_text = ByText()
 		for n_case in range(ctx.scale(40, 300)):
+			if _dl_loop_requests.over():
+				continue
 			keys = [rng.choice(words + ['', '']) for _j in range(rng.randint(0, 9))]
 			if n_case == 0:
 				keys = ['', 'a = 1', '', '', 'x', 'exit', 'b']
@@ -1709,6 +1718,8 @@ def fuzz_inputs(ctx: Ctx) -> list[tuple[str, str, str | bytes]]:
 	out: list[tuple[str, str, str | bytes]] = []
 	both = ('in-memory', 'on-disk')
 	for rec in load_corpus():
+		if rec.get('kind') == 'cli-session':  # replayed by search_cli_sessions
+			continue
 		data: str | bytes = bytes.fromhex(rec['source_hex']) if rec.get('source_hex') else rec['source']
 		for m in ([rec['mode']] if rec.get('mode') in both else both):
 			out.append(('corpus', m, data))
@@ -2184,8 +2195,9 @@ def search_loop_histories(ctx: Ctx) -> SearchResult:
 				probe = LoopRig(ctx)
 				o2 = rerun(probe, consumed[start:])
 				if o2.startswith('died') and probe.last_exc is not None and 'loop:' + pl.escape_key(probe.last_exc, 'in-memory') == key:
-					minimal = consumed[start:]
+					minimal, out = consumed[start:], o2
 					break
+		expected = _expected_session(minimal) if kind == 'requests' else _expected_keys(minimal)
 		res.findings.append(Finding(key=key, what=f'Interactive.run ended with {out!r} (expected {expected!r}) on the {kind} session {minimal!r}',
 			replay={'kind': 'session', kind: minimal, 'status': out, 'expected': expected, 'tranp_frames': pl.tranp_frames(e)[-6:] if e is not None else []}))
 		ctx.notes.append(f'finding key={key} | {kind} session {minimal!r} → {out} (expected {expected})')
@@ -2223,6 +2235,162 @@ def search_loop_histories(ctx: Ctx) -> SearchResult:
 	res.note = (f'{len(histories)} sessions of 2..6 requests handed over by a scripted tty: valid programs, ill-typed templates, unparsable texts, programs importing from their '
 		f'own module (one-module import cycle), token mutations, EMPTY requests; {len(transcripts)} keyboard transcripts read by the real tty() (scripted readline): blank and '
 		'whitespace-only lines, repeated Enter, `exit` inside a request')
+	return res
+
+
+# ---------------------------------------------------------------------------------------------
+# search: the interactive mode end to end — a fresh `python -m rogw.tranp.bin.transpile -it` process fed raw bytes on stdin
+# (the real bin/_input.sh, readline, tty, Interactive.run and the module's __main__ block; nothing is patched)
+
+PROMPT_LINE = 'Python code here. Type `exit` to quit:'
+CLI_CPU_S = 60      # CPU seconds of the child (RLIMIT_CPU: immune to machine load; the kernel ends a looping child)
+CLI_WALL_S = 300.0  # wall safety net: a session cut by it is counted as skipped, never reported
+
+
+def _cli_run(root: str, cfg: str, stdin: bytes) -> tuple[str, str]:
+	"""→ (status, stdout): status = 'exit <code>' | 'cpu-cap' | 'wall-cap'"""
+	import resource
+	import signal
+	import subprocess
+	env = dict(os.environ)
+	env['PYTHONPATH'] = os.pathsep.join([os.path.join(common.VERIF, 'compat'), common.REPO, common.VERIF])
+	env['PYTHONDONTWRITEBYTECODE'] = '1'
+	env['PYTHONIOENCODING'] = 'utf-8'
+
+	def limits() -> None:
+		os.setsid()
+		resource.setrlimit(resource.RLIMIT_CPU, (CLI_CPU_S, CLI_CPU_S + 5))
+
+	proc = subprocess.Popen([sys.executable, '-m', 'rogw.tranp.bin.transpile', '-c', cfg, '-it'], cwd=root, env=env, stdin=subprocess.PIPE, stdout=subprocess.PIPE,
+		stderr=subprocess.STDOUT, preexec_fn=limits)
+	try:
+		out, _ = proc.communicate(stdin, timeout=CLI_WALL_S)
+	except subprocess.TimeoutExpired:
+		with contextlib.suppress(Exception):
+			os.killpg(proc.pid, signal.SIGKILL)
+		with contextlib.suppress(Exception):
+			proc.communicate(timeout=10)
+		return 'wall-cap', ''
+	finally:
+		with contextlib.suppress(Exception):
+			os.killpg(proc.pid, signal.SIGKILL)  # a bash helper still waiting for a line
+	text = out.decode('utf-8', errors='replace')
+	if proc.returncode in (-signal.SIGXCPU, -signal.SIGKILL):
+		return 'cpu-cap', text
+	return f'exit {proc.returncode}', text
+
+
+def _cli_verdict(lines: list[bytes], status: str, out: str) -> tuple[str, str] | None:
+	"""None when the session was served to its end; else (key, what). Expected: one prompt per tty() call that an independent reading
+	of the transcript starts, `Quit` as the last line (the transcript always ends with the quit line), exit code 0."""
+	import re
+	keys = [ln.decode('utf-8', errors='replace') for ln in lines]
+	expected = _expected_keys(keys)
+	want_prompts = int(expected.split(' ')[1])
+	got_prompts = sum(1 for ln in out.split('\n') if ln == PROMPT_LINE)
+	tail = [ln for ln in out.split('\n') if ln.strip()]
+	if status == 'exit 0' and expected.startswith('quit') and got_prompts == want_prompts and tail and tail[-1] == 'Quit':
+		return None
+	if status == 'cpu-cap':
+		return 'cli:cpu-cap', f'the interactive process used more than {CLI_CPU_S} s of CPU after {got_prompts} of {want_prompts} prompts'
+	# what ended the session: `finally: print('Quit')` comes first, then the module's __main__ block prints the exception that left
+	# Interactive.run (ErrorRender: stack of `  file:line func` entries, `module.Class: (args)` last) or CPython prints a traceback
+	last_quit = max((i for i, ln in enumerate(tail) if ln == 'Quit'), default=-1)
+	after = tail[last_quit + 1:] if last_quit >= 0 else []
+	what = f'the interactive process ended with {status} after {got_prompts} of {want_prompts} prompts; last lines {tail[-3:]!r}'
+	if not after:
+		return f'cli:requests-not-served[{status}]', what
+	m = re.match(r'^([A-Za-z_][\w.]*)\b', after[-1])
+	cls = m.group(1).split('.')[-1] if m else 'unknown'
+	frames = [fm.group(1) + ':' + fm.group(2) for ln in after for fm in [re.match(r'^\s+(?:\S*?rogw/tranp/)(\S+?\.py):\d+ (\S+)$', ln)] if fm]
+	return f'cli:{cls}@{frames[-1] if frames else "?"}', what
+
+
+def cli_transcripts(ctx: Ctx, rng: random.Random) -> list[list[bytes]]:
+	"""keyboard transcripts as raw byte lines (a terminal delivers bytes): requests separated by a bare Enter, the quit line last.
+	No backslash: bash `read` without -r treats it as an escape / line continuation, which changes where a request ends."""
+	pool = [x for x in (HISTORY_POOL_EXTRA + [s.rstrip('\n') for s in gen.VALID_PROGRAMS[:6]]) if '\\' not in x]
+	out: list[list[bytes]] = [
+		[b'a: int = 1', b'', b'', b'x = y', b'', b'def f(:', b'', b'  ', b'b = 2', b'\t', b'exit'],
+		[b'', b'b = 2  ', b'', 'c: str = "\u7d42\u4e86"'.encode(), b'', b'exit  '],
+	]
+	# byte-level mutations of a valid line: bytes that are not UTF-8 (lone start / continuation bytes, a cut multi-byte character)
+	base = 'a: str = "\u7d42"'.encode()
+	# (never at the very end of a line: in a UTF-8 locale bash `read` completes a started character with the following bytes, the line feed included)
+	bad = [b'a = 1\xff', b'a: str = "\xe7\xb5"', b'\x80abc = 1', b'b = "\xc3("', base.replace(b'\xe7', b'\xe7\xe7')]
+	for b in (bad if ctx.thorough else [bad[rng.randrange(len(bad))], bad[0]]):
+		out.append([b'b = 2', b'', b, b'', b'c = 3', b'', b'exit'])
+	for _ in range(ctx.scale(2, 30)):
+		lines: list[bytes] = []
+		for _i in range(rng.randint(1, 4)):
+			r = rng.random()
+			if r < 0.2:
+				pass
+			elif r < 0.85:
+				lines += [ln.encode() for ln in _requests_of(rng.choice(pool))]
+			else:
+				raw = bytearray(rng.choice(pool).split('\n')[0].encode() + b' # end')
+				raw[rng.randrange(len(raw) - 5)] = rng.choice([0xff, 0x80, 0xc3, 0xe7, 0x0d])
+				lines.append(bytes(raw))
+			lines += rng.choice([[b''], [b''], [b'', b''], [b'   ']])
+		out.append([*lines, b'exit'])
+	return out
+
+
+def _cli_config(root: str) -> str:
+	repo = common.REPO
+	cfg = os.path.join(root, 'config.yml')
+	with open(cfg, 'w', encoding='utf-8') as f:
+		f.write('\n'.join([
+			f'grammar: {repo}/data/grammar.lark',
+			'template_dirs:', f'  - {repo}/data/cpp/template',
+			f'trans_mapping: {repo}/data/i18n.yml',
+			'input_globs:', f'  - {repo}/example/json.py',  # never loaded in the interactive mode; the list only has to be non-empty
+			'output_dirs:', f'  - {root}/out/',
+			'output_language: cpp:h',
+			'exclude_patterns: []',
+			'env:', '  transpiler: {}', '  view:', '    immutable_param_types: []', '',
+		]))
+	return cfg
+
+
+def search_cli_sessions(ctx: Ctx) -> SearchResult:
+	res = SearchResult('interactive mode end to end: a fresh `python -m rogw.tranp.bin.transpile -it` process with raw bytes on stdin serves every request and leaves through the quit line')
+	rng = ctx.sub_rng('cli-sessions')
+	root = ctx.tmpdir()
+	cfg = _cli_config(root)
+	hist: Counter[str] = Counter()
+	seen: set[str] = set()
+	skipped = 0
+	dl = _deadline(ctx, 'cli-sessions', ctx.scale(45, 400))
+	transcripts = [[bytes.fromhex(h) for h in rec['lines_hex']] for rec in load_corpus() if rec.get('kind') == 'cli-session'] + cli_transcripts(ctx, rng)
+	for lines in transcripts:
+		if dl.over():
+			continue
+		res.cases += 1
+		try:
+			status, out = _cli_run(root, cfg, b'\n'.join(lines) + b'\n')
+		except Exception as e:  # noqa: BLE001 — the harness could not start the process: not an observation of the code
+			skipped += 1
+			hist[f'not-started:{type(e).__name__}'] += 1
+			continue
+		if status == 'wall-cap':
+			skipped += 1
+			hist['wall-cap (skipped)'] += 1
+			continue
+		v = _cli_verdict(lines, status, out)
+		hist['served' if v is None else v[0]] += 1
+		if v is None or v[0] in seen:
+			continue
+		seen.add(v[0])
+		res.findings.append(Finding(key=v[0], what=v[1] + f' — stdin lines {lines!r}', replay={'kind': 'cli-session', 'lines_hex': [ln.hex() for ln in lines], 'status': status}))
+		ctx.notes.append(f'finding key={v[0]} | stdin lines {lines!r}')
+	if skipped:
+		ctx.notes.append(f'cli-sessions: {skipped} session(s) skipped (process not started or {CLI_WALL_S:.0f} s wall cap)')
+	res.distinct = len({tuple(t) for t in transcripts})
+	res.histogram = dict(hist)
+	res.note = (f'{len(transcripts)} keyboard transcripts as raw bytes (blank and whitespace-only lines, trailing blanks, non-ASCII text, bytes that are not UTF-8, control bytes); '
+		'oracle: one prompt per request an independent reading of the transcript finds, `Quit` last, exit code 0; child CPU capped by RLIMIT_CPU')
 	return res
 
 
@@ -2361,7 +2529,7 @@ def run(ctx: Ctx) -> int:
 					streams.append(fn(ctx))
 	with ctx.timed('search'):
 		searches = []
-		for fn in (search_f3_replay, search_laws, search_cache_history, search_loop_histories, search_fuzz):
+		for fn in (search_f3_replay, search_laws, search_cache_history, search_loop_histories, search_cli_sessions, search_fuzz):
 			with ctx.timed(f'search:{fn.__name__}'):
 				searches.append(fn(ctx))
 	_report_deadlines(ctx)
@@ -2371,7 +2539,7 @@ def run(ctx: Ctx) -> int:
 		translate_ok=translate_ok, translate_msg=translate_msg,
 		statements=STATEMENTS,
 		partial={
-			'proved': 'exception normalisation of Procedure (handlers), both parser branches, the Interactive loop catch set, message/quotation totality guards — on the model',
+			'proved': 'exception normalisation of Procedure (handlers), both parser branches, the Interactive loop catch set, the request boundary of the interactive mode (generated quit test total on every request incl. the empty one; tty() request shape; whole keyboard sessions end at the prompt or through the quit line), message/quotation totality guards — on the model',
 			'false_on_pinned_tree': 'parse_mem (in-memory parser branch, F3) and proc_full (node properties raising inside __make_event) — counterexamples proved, F3 replayed on the real code',
 			'correspondence_only': 'Python semantics assumed by the model (issubclass via __mro__, except-clause order, keyword-mismatch TypeError) — exercised by the streams',
 			'search_only': 'absence of raising node properties during transpile (the hypothesis of proc / transpile_normalised: 0 transpile-stage escapes in the fuzz); termination of lark and of the recursive tree walks on deep inputs (10 s CPU cap; RecursionError is normalised to Errors.Fatal); the regression baseline corpus/C07/fatal_sites_baseline.txt lists the crash sites that are repaired by normalisation only',
@@ -2380,6 +2548,7 @@ def run(ctx: Ctx) -> int:
 			'exception classes have single-argument construction unless they define their own __init__ (generated table definesCtor; checked for Errors.*)',
 			'source files are valid UTF-8 when a Node-carrying error is rendered (a Node exists only after a successful parse of the decoded file)',
 			'cache files written by tranp itself are intact (a corrupted AST cache is outside the input quantifier)',
+			'session_survives: bin/io.py readline returns a str for every typed line (the keys of the model are strings) — FALSE for a line that is not UTF-8 on the pinned tree: finding cli:UnicodeDecodeError@bin/io.py:readline, exhibited end to end by search_cli_sessions',
 		],
 		trusted=['lark (raises only Exception subclasses from parse; terminates)', 'the four stand-alone tools bin/{j2_check,gram_check,ast_check,analyze}.py, compatible/ and test/ are outside the except-clause audit (on no path from the public entry points)', 'CPython traceback.format_exception (every entry ends with a line feed) and the re engine (frame pattern)', 'self-hosted parser termination: Tranp.C11.T1_termination'])
 
@@ -2388,6 +2557,20 @@ def replay(ctx: Ctx, path: str) -> int:
 	with open(path, encoding='utf-8') as f:
 		rec = json.load(f)
 	print(json.dumps({k: v for k, v in rec.items() if k != 'input'}, indent=1)[:2000])
+	if rec.get('kind') == 'failing-input' and rec['input'].get('kind') == 'cli-session':
+		lines = [bytes.fromhex(h) for h in rec['input']['lines_hex']]
+		root = ctx.tmpdir()
+		status, out = _cli_run(root, _cli_config(root), b'\n'.join(lines) + b'\n')
+		v = None if status == 'wall-cap' else _cli_verdict(lines, status, out)
+		print(f'replay: cli session {lines!r} -> {status}: {v[0] + " | " + v[1] if v else "served"}')
+		known = {k['key'] for k in common.load_known(PROP) if k.get('status') == 'known'}
+		if v and v[0] in known:
+			print(f'KNOWN-FINDING: property={PROP} [key={v[0]}]')
+		bad = bool(v) and v[0] not in known
+		if bad:
+			print(f'VIOLATION property={PROP} replay={os.path.relpath(path, common.VERIF)}')
+		ctx.cleanup()
+		return 1 if bad else 0
 	if rec.get('kind') == 'failing-input' and (rec['input'].get('kind') == 'cache-history' or 'source' not in rec['input']) and rec['input'].get('kind') != 'session':
 		# law / history findings carry their own description; re-evaluate the searches they come from and look for the key again
 		ctx2 = Ctx(PROP, 'thorough' if rec['input'].get('kind') == 'cache-history' else rec.get('tier', 'quick'), int(rec.get('seed', 0)))
